@@ -189,16 +189,34 @@ def call_grid(c, arena):
 
 
 # -------------------------------------------------------- interpolation ----
+INTERP_N = [2, 3, 10, 50, 128, 1000]
+INTERP_X0 = [0.0, 0.1, 1e-3]
+INTERP_DX = [0.1, 0.3, 1.0 / 3]
+INTERP_WHERE = ['below', 'first', 'inside', 'last', 'above', 'ulp-below-last', 'ulp-above-first']
+
+
 def gen_interp(rng):
-    n = rng.choice([2, 3, 10])
-    x0, dx = rng.choice([0.0, 0.1, 1e-3]), rng.choice([0.1, 0.3, 1.0 / 3])
-    where = rng.choice(['below', 'first', 'inside', 'last', 'above', 'ulp-below-last', 'ulp-above-first'])
-    return {'n': n, 'x0': x0, 'dx': dx, 'where': where, 'frac': rng.random()}
+    return {'n': rng.choice(INTERP_N), 'x0': rng.choice(INTERP_X0), 'dx': rng.choice(INTERP_DX),
+            'grid': rng.choice(['arange', 'linspace']), 'where': rng.choice(INTERP_WHERE), 'frac': rng.random()}
+
+
+def all_interp():
+    """Every equidistant float32 grid of the families above, evaluated one rounding step inside each end:
+    whether the measured spacing x[1]-x[0] under- or overshoots depends on the particular (n, x0, dx)."""
+    for n in INTERP_N:
+        for x0 in INTERP_X0:
+            for dx in INTERP_DX:
+                for grid in ('arange', 'linspace'):
+                    for where in ('ulp-below-last', 'ulp-above-first'):
+                        yield {'n': n, 'x0': x0, 'dx': dx, 'grid': grid, 'where': where, 'frac': 0.5}
 
 
 def call_interp(c, arena):
     from abacusnbody.analysis import power_spectrum as ps
-    x = (c['x0'] + c['dx'] * np.arange(c['n'])).astype(np.float32)
+    if c.get('grid', 'arange') == 'linspace':
+        x = np.linspace(c['x0'], c['x0'] + c['dx'] * 7, c['n']).astype(np.float32)
+    else:
+        x = (c['x0'] + c['dx'] * np.arange(c['n'])).astype(np.float32)
     y = np.arange(c['n'], dtype=np.float32) * 2 + 1
     xd = {'below': x[0] - 1, 'first': x[0], 'inside': x[0] + c['frac'] * (x[-1] - x[0]), 'last': x[-1], 'above': x[-1] + 1,
           'ulp-below-last': np.nextafter(x[-1], np.float32(-1)), 'ulp-above-first': np.nextafter(x[0], np.float32(1e9))}[c['where']]
